@@ -1,11 +1,34 @@
-(* C03 — parsing and checking is total.  Statements about the checker's guards: each guard the
-   checker tests implies that the type query asked afterwards is defined.  The refuted forms are
-   the guards as they were before the repairs (a `!`-typed or `() -> !`-typed operand passed them
-   and the following `.unwrap()` panicked).  Checker-wide totality (check_x_never_panics, rt_total)
-   is added by Lemmas/CheckTotal.v when delivered. *)
-From SSL.Model Require Import Base Ty Float Value Ops Seq Syntax Rt.
-From SSL.Lemmas Require Import SoundLemmas.
+(* C03 — the checker is total, never panics, and everything it accepts has a computable,
+   well-formed static type; the folding pass after it never panics on what the checker
+   built (all forms but `for`, destructuring, modules).
+   Statements only; proofs are in Lemmas/CheckTotal.v, Lemmas/RecreateTotal.v
+   (Lemmas/CheckUnfold.v: definitions, Lemmas/CheckBase.v: vocabulary).
 
+   [check_x]/[check_s]/[check_lines] (Model/Check.v): surface AST -> instruction tree;
+       Err = rejected, Panic = the implementation would panic, OutOfFuel = model fuel.
+   [rt] (Model/Rt.v): the static type recomputed from the tree.
+   [wf_sx]/[wf_sstm]/[wf_sline] : every type annotation in the AST is [wf_ty], every
+       constant has a [wf_ty] type, postfix operators are those of the grammar.
+   [wf_lenv e]   : every local variable of every layer has a [wf_ty] type, function
+                   layers carry a [wf_ty] result type.
+   [wf_scopes sc]: every variable of the parse-time interpreter has a [wf_ty] type.
+   [wf_red red]  : the four functions planted for `$&& $|| $& $|` are function values
+                   with [wf_ty] types.
+   [sx_size] ..  : the size of the AST; any fuel above it suffices.
+
+   History.  As first stated the property was FALSE of the implementation:
+   `x := [1]~ @ [][0];` passed `@`'s guard (the mapper's type `!` matches `(int) -> any`)
+   and Set then unwrapped `!.return_type()` ([map_guard_never_refuted] keeps the type-level
+   fact); and the folding pass narrowed static types under guards tested on wider ones
+   (`g := (k: int) -> int { y := [[], [[1]]][0][k][0]; return y; };` panicked in
+   Code::parse, see [recreate_narrows]).  Since repair 15efcc4 every unwrap() of the
+   ReturnType impls is an unwrap_or(!), [rt] is total ([rt_total]) and the theorems below
+   hold with no exception. *)
+From SSL.Model Require Import Base Ty Float Value Ops Seq Syntax Rt Recreate Exec Check Top.
+From SSL.Lemmas Require Import SoundLemmas CheckUnfold CheckBase CheckTotal CheckExamples
+  RecreateTotal.
+
+(* ---------- the guards of the checker, one by one (see also Props/C01.v) ---------- *)
 Theorem indexing_guard_implies_result_type : forall T,
   wf_ty T = true -> ty_eqb T TNever || negb (can_be_indexed T) = false -> index_result T <> None.
 Proof. exact index_guard_repaired. Qed.
@@ -26,3 +49,279 @@ Proof. exact add_rt_total. Qed.
 (* after the repair of return_type(): an operation on an operand without the queried component has type `!` *)
 Theorem static_type_of_indexing_never_is_never : bin_rt At TNever TInt = Ok TNever.
 Proof. reflexivity. Qed.
+
+(* the two unwraps of the checker that had no guard lemma yet *)
+Theorem map_guard : forall e T,
+  wf_ty T = true -> matches T (TFun [e] TAny) = true -> T <> TNever -> fn_return_type T <> None.
+Proof. exact CheckBase.map_guard. Qed.
+Theorem map_guard_never_refuted :
+  can_be_used Map (TFun [] (TTup [TBool; TInt])) TNever = Ok true /\
+  (forall e, matches TNever (TFun [e] TAny) = true) /\ fn_return_type TNever = None /\
+  bin_rt Map (TFun [] (TTup [TBool; TInt])) TNever = Ok (TFun [] (TTup [TBool; TNever])).
+Proof. exact CheckTotal.map_guard_never_refuted. Qed.
+Theorem flatten_guard : forall T n,
+  wf_ty T = true -> is_tuple T = true -> tuple_len T = Some n -> flatten_tuple T <> None.
+Proof. exact CheckBase.flatten_guard. Qed.
+
+(* the model's checker, one fuel step at a time (the bodies are the text of Check.v) *)
+Theorem check_x_S : forall red n sc e x,
+  check_x red (S n) sc e x = x_body red (check_x red n) (check_lines red n) sc e x.
+Proof. exact CheckUnfold.check_x_S. Qed.
+Theorem check_s_S : forall red n sc e s,
+  check_s red (S n) sc e s = s_body (check_x red n) (check_s red n) (check_lines red n) sc e s.
+Proof. exact CheckUnfold.check_s_S. Qed.
+Theorem check_lines_S : forall red n sc e l,
+  check_lines red (S n) sc e l = l_body (check_s red n) (check_lines red n) sc e l.
+Proof. exact CheckUnfold.check_lines_S. Qed.
+
+(* ---------- rt is total ---------- *)
+Theorem rt_total : forall i, exists T, rt i = Ok T.
+Proof. exact CheckTotal.rt_total. Qed.
+Theorem bin_rt_wf : forall op l r, wf_ty l = true -> wf_ty r = true ->
+  exists T, bin_rt op l r = Ok T /\ wf_ty T = true.
+Proof. exact CheckTotal.bin_rt_wf. Qed.
+Theorem un_rt_wf : forall op t, wf_ty t = true -> exists T, un_rt op t = Ok T /\ wf_ty T = true.
+Proof. exact CheckTotal.un_rt_wf. Qed.
+(* the admissibility test of binary operators never panics *)
+Theorem can_be_used_never_panics : forall op l r,
+  can_be_used op l r <> Panic /\ can_be_used op l r <> OutOfFuel.
+Proof. exact CheckTotal.can_be_used_never_panics. Qed.
+
+Section C03.
+Variable red : reducers.
+Hypothesis Wred : wf_red red.
+
+(* ---------- 1. the static type of whatever is accepted is well-formed ---------- *)
+Theorem check_x_rt_wf : forall fuel sc e x i,
+  wf_lenv e -> wf_scopes sc -> wf_sx x = true ->
+  check_x red fuel sc e x = Ok i -> exists T, rt i = Ok T /\ wf_ty T = true.
+Proof. exact (CheckTotal.check_x_rt_wf red Wred). Qed.
+
+Theorem check_s_rt_wf : forall fuel sc e s i e',
+  wf_lenv e -> wf_scopes sc -> wf_sstm s = true ->
+  check_s red fuel sc e s = Ok (i, e') ->
+  (exists T, rt i = Ok T /\ wf_ty T = true) /\ wf_lenv e'.
+Proof. exact (CheckTotal.check_s_rt_wf red Wred). Qed.
+
+Theorem check_lines_rt_wf : forall fuel sc e l is e',
+  wf_lenv e -> wf_scopes sc -> forallb wf_sline l = true ->
+  check_lines red fuel sc e l = Ok (is, e') ->
+  Forall (fun i => exists T, rt i = Ok T /\ wf_ty T = true) is /\ wf_lenv e'.
+Proof. exact (CheckTotal.check_lines_rt_wf red Wred). Qed.
+
+(* ---------- 2. the checker never panics ---------- *)
+(* the explicit Panic arms left in Check.v are unreachable: `min_tuple_len = None` behind
+   is_tuple by [min_tuple_len_guard] (Props/C01.v), a postfix operator outside the
+   grammar by [wf_sx] ([wf_sx_postfix_needed]) *)
+Theorem check_x_never_panics : forall fuel sc e x,
+  wf_lenv e -> wf_scopes sc -> wf_sx x = true -> check_x red fuel sc e x <> Panic.
+Proof. exact (CheckTotal.check_x_never_panics red Wred). Qed.
+Theorem check_s_never_panics : forall fuel sc e s,
+  wf_lenv e -> wf_scopes sc -> wf_sstm s = true -> check_s red fuel sc e s <> Panic.
+Proof. exact (CheckTotal.check_s_never_panics red Wred). Qed.
+Theorem check_lines_never_panics : forall fuel sc e l,
+  wf_lenv e -> wf_scopes sc -> forallb wf_sline l = true -> check_lines red fuel sc e l <> Panic.
+Proof. exact (CheckTotal.check_lines_never_panics red Wred). Qed.
+
+(* ---------- 3. with fuel above the size of the AST the checker answers ---------- *)
+Theorem check_total : forall fuel sc e x,
+  wf_lenv e -> wf_scopes sc -> wf_sx x = true -> sx_size x < fuel ->
+  (exists i, check_x red fuel sc e x = Ok i) \/ (exists z, check_x red fuel sc e x = Err z).
+Proof. exact (CheckTotal.check_total red Wred). Qed.
+Theorem check_s_total : forall fuel sc e s,
+  wf_lenv e -> wf_scopes sc -> wf_sstm s = true -> sstm_size s < fuel ->
+  (exists r, check_s red fuel sc e s = Ok r) \/ (exists z, check_s red fuel sc e s = Err z).
+Proof. exact (CheckTotal.check_s_total red Wred). Qed.
+Theorem check_lines_total : forall fuel sc e l,
+  wf_lenv e -> wf_scopes sc -> forallb wf_sline l = true -> lines_size l < fuel ->
+  (exists r, check_lines red fuel sc e l = Ok r) \/ (exists z, check_lines red fuel sc e l = Err z).
+Proof. exact (CheckTotal.check_lines_total red Wred). Qed.
+End C03.
+
+(* the clause of wf_sx about postfix operators is needed (model only) *)
+Theorem wf_sx_postfix_needed :
+  check_x red0 3 [] [] (XPostfix UNot (XConst (VInt 1))) = Panic.
+Proof. exact CheckExamples.wf_sx_postfix_needed. Qed.
+
+(* ---------- non-vacuity ---------- *)
+Theorem ex_prog_hyps :
+  forallb wf_sline ex_prog = true /\ wf_lenv [] /\ wf_scopes ex_sc /\ wf_red red0 /\
+  lines_size ex_prog < 100.
+Proof. exact CheckExamples.ex_prog_hyps. Qed.
+Theorem ex_prog_accepted :
+  obind (check_lines red0 100 ex_sc [] ex_prog) (fun p => rtl_def (fst p)) =
+  Ok [TFun [TMulti [TInt; TString]] TInt;
+      TStruct [(na, TInt); (nb, TArr TInt)];
+      TArr TInt;
+      TInt;
+      TVoid].
+Proof. exact CheckExamples.ex_prog_accepted. Qed.
+Theorem ex_prog_rt_defined :
+  exists is e', check_lines red0 100 ex_sc [] ex_prog = Ok (is, e') /\
+    Forall (fun i => exists T, rt i = Ok T /\ wf_ty T = true) is /\ wf_lenv e'.
+Proof. exact CheckExamples.ex_prog_rt_defined. Qed.
+Theorem ex_rejected :
+  check_lines red0 10 ex_sc [] [LStm (SExpr (XInfix Add (XConst (VInt 1)) (XConst (VString []))))]
+  = Err E_Reject.
+Proof. exact CheckExamples.ex_rejected. Qed.
+(* the program that used to panic: accepted at type `() -> (bool, !)` *)
+Theorem ex_map_never_set :
+  obind (check_lines red0 8 [] [] [LSet [120%Z] (SExpr x_map_never)]) (fun p => rtl_def (fst p)) =
+  Ok [TFun [] (TTup [TBool; TNever])].
+Proof. exact CheckExamples.ex_map_never_set. Qed.
+
+(* ================================================================= *)
+(* (e) the folding pass after the checker (Lemmas/RecreateTotal.v)     *)
+(* ================================================================= *)
+(* [recreate] (Model/Recreate.v) folds constant sub-expressions; [parse_top] (Model/Top.v)
+   = Code::parse: check a statement, then recreate it.
+   [frag]/[sfrag]/[lfrag] : the surface fragment = every expression, statement and line
+                form EXCEPT `for` loops, tuple destructuring `(a, b) := e` and modules;
+                binary operators are those the parser builds an XInfix for
+                ([frag_infix_needed]); constants are [vok];
+   [vok v]    : hereditarily, arrays store a well-formed element type their elements
+                inhabit, struct keys are distinct, function / cell references carry
+                well-formed types ([vok_lenv], [vok_scopes]: the constants in scope are);
+   [ER e er]  : the pass's environment er binds every local variable the checker's e
+                binds, and where er knows a CONSTANT for it, that constant is [vok] and
+                inhabits the type e has ([lref]); [leq] = same bindings.
+
+   Since [rt] is total the pass can only panic on an unknown name or by folding an
+   operator on constants of the wrong kinds.  It does neither on what the checker built:
+   names are bound because the two environments grow together ([ER] is kept by Set and
+   function declarations on both sides), and every constant the pass substitutes inhabits
+   the static type the checker computed for the expression it replaces, so the operator
+   lemmas of Props/C01.v apply ("folding only applies operators to constants whose types
+   passed can_be_used").
+
+   The static TYPES are not kept: folding narrows them under guards that were tested on
+   the wider ones.  `[[], [[1]]][0]` : [!] | [[int]] is folded to the constant `[]` : [!];
+   then `[k]` on it has type `!`, which the guard of `[]` would reject and [index_result]
+   does not answer.  That unwrap panicked in Code::parse before 15efcc4 (also through
+   `if true { [] } else { [[1]] }`; Props/C01b has the variant with a `return` branch);
+   the type is `!` since. *)
+Theorem recreate_narrows :
+  check_x red0 20 [] e_k x_narrow = Ok i_narrow /\ rt i_narrow = Ok TInt /\
+  recreate powf0 20 [] e_k i_narrow = Ok (i_narrow', e_k) /\ rt i_narrow' = Ok TNever /\
+  rt (IBin At (IVar (VArr TNever [])) (ILocal nk (LOther TInt))) = Ok TNever /\
+  index_result TNever = None.
+Proof. exact RecreateTotal.recreate_narrows. Qed.
+Theorem parse_top_narrow :
+  exists r, parse_top powf0 red0 40 [] [mkLayer [] None false] p_narrow = Ok r.
+Proof. exact RecreateTotal.parse_top_narrow. Qed.
+Theorem parse_top_if_narrow :
+  exists r, parse_top powf0 red0 40 [] [mkLayer [] None false] p_if = Ok r.
+Proof. exact RecreateTotal.parse_top_if_narrow. Qed.
+
+(* the environment relation *)
+Theorem ER_refl : forall e, vok_lenv e -> ER e e.
+Proof. exact RecreateTotal.ER_refl. Qed.
+Theorem ER_of_leq : forall e e', vok_lenv e -> leq e' e -> ER e e'.
+Proof. exact RecreateTotal.ER_of_leq. Qed.
+Theorem ER_insert : forall n lv lv' e er,
+  ER e er -> lref lv lv' -> ER (lenv_insert n lv e) (lenv_insert n lv' er).
+Proof. exact RecreateTotal.ER_insert. Qed.
+
+Section C03e.
+Variable red : reducers.
+Hypothesis Wred : wf_red red.
+Variable powf : fbits -> fbits -> fbits.
+
+(* expressions: the pass never panics, leaves the environment alone, and whatever it folds
+   to a constant is a good value of the static type the checker computed *)
+Theorem recreate_expr_total : forall fuel fuel' sc e e' x i,
+  wf_lenv e -> vok_lenv e -> wf_scopes sc -> vok_scopes sc -> wf_sx x = true -> frag x = true ->
+  ER e e' ->
+  check_x red fuel sc e x = Ok i ->
+  recreate powf fuel' sc e' i <> Panic /\
+  forall i' e'', recreate powf fuel' sc e' i = Ok (i', e'') ->
+    e'' = e' /\
+    forall v, i' = IVar v -> vok v = true /\ exists T, rt i = Ok T /\ has_type v T = true.
+Proof. exact (RecreateTotal.recreate_expr_total red Wred powf). Qed.
+
+(* statements: never panics, environment unchanged *)
+Theorem recreate_stm_total : forall fuel fuel' sc e er s i e1,
+  wf_lenv e -> vok_lenv e -> wf_scopes sc -> vok_scopes sc -> wf_sstm s = true -> sfrag s = true ->
+  ER e er ->
+  check_s red fuel sc e s = Ok (i, e1) ->
+  recreate powf fuel' sc er i <> Panic /\
+  forall i' er', recreate powf fuel' sc er i = Ok (i', er') -> er' = er.
+Proof. exact (RecreateTotal.recreate_stm_total red Wred powf). Qed.
+
+(* lines: everything check_lines builds, recreated in sequence (as a block / function body
+   is), never panics, and the two environments stay related *)
+Theorem recreate_lines_never_panic : forall fuel fuel' sc e er l is e1,
+  wf_lenv e -> vok_lenv e -> wf_scopes sc -> vok_scopes sc ->
+  forallb wf_sline l = true -> forallb lfrag l = true ->
+  ER e er ->
+  check_lines red fuel sc e l = Ok (is, e1) ->
+  rl_def (recreate powf fuel' sc) is er <> Panic /\
+  forall is' er', rl_def (recreate powf fuel' sc) is er = Ok (is', er') -> ER e1 er'.
+Proof. exact (RecreateTotal.recreate_lines_never_panic red Wred powf). Qed.
+
+(* Code::parse on a top-level line of the fragment never panics ... *)
+Theorem parse_top_line_never_panics : forall fuel sc e ln,
+  wf_lenv e -> vok_lenv e -> wf_scopes sc -> vok_scopes sc ->
+  wf_sline ln = true -> lfrag ln = true ->
+  parse_top powf red fuel sc e [ln] <> Panic.
+Proof. exact (RecreateTotal.parse_top_line_never_panics red Wred powf). Qed.
+
+(* ... nor on a program of fragment expression statements (for several lines that bind
+   variables one would also need that the pass keeps the types in its environment
+   well-formed for the next check: not proved) *)
+Theorem parse_top_exprs_never_panic : forall fuel sc e xs,
+  wf_lenv e -> vok_lenv e -> wf_scopes sc -> vok_scopes sc ->
+  Forall (fun x => wf_sx x = true /\ frag x = true) xs ->
+  parse_top powf red fuel sc e (map (fun x => LStm (SExpr x)) xs) <> Panic.
+Proof. exact (RecreateTotal.parse_top_exprs_never_panic red Wred powf). Qed.
+End C03e.
+
+(* the pass never returns a local variable it knows a constant for *)
+Theorem recreate_nolv : forall powf sc m er i i' e'',
+  recreate powf m sc er i = Ok (i', e'') -> forall n v, i' <> ILocal n (LVariable v).
+Proof. exact RecreateTotal.recreate_nolv. Qed.
+
+(* the values the folder builds stay good *)
+Theorem vok_self_typed : forall v, vok v = true -> has_type v (as_type v) = true.
+Proof. exact RecreateTotal.vok_self_typed. Qed.
+Theorem vok_type_wf : forall v, vok v = true -> wf_ty (as_type v) = true.
+Proof. exact RecreateTotal.vok_type_wf. Qed.
+Theorem vok_arr_of : forall vs, forallb vok vs = true -> vok (arr_of vs) = true.
+Proof. exact RecreateTotal.vok_arr_of. Qed.
+Theorem vok_op : forall powf o a b v,
+  vok a = true -> vok b = true -> op_exec powf o a b = Ok v -> vok v = true.
+Proof. exact RecreateTotal.vok_op. Qed.
+Theorem vok_at : forall v i x, vok v = true -> at_exec v i = Ok x -> vok x = true.
+Proof. exact RecreateTotal.vok_at. Qed.
+
+(* non-vacuity *)
+Theorem ex_fold_hyps :
+  wf_lenv e_k /\ vok_lenv e_k /\ wf_scopes [] /\ vok_scopes [] /\ wf_sx x_fold = true /\
+  frag x_fold = true.
+Proof. exact RecreateTotal.ex_fold_hyps. Qed.
+Theorem ex_fold_result :
+  obind (check_x red0 20 [] e_k x_fold) (recreate powf0 20 [] e_k) =
+  Ok (IBin Add (IBin At (IArray [IVar (VInt 3); ILocal nk (LOther TInt)] TInt) (IVar (VInt 0)))
+               (IVar (VInt 12)), e_k).
+Proof. exact RecreateTotal.ex_fold_result. Qed.
+Theorem ex_fold_error :
+  obind (check_x red0 20 [] [] (XInfix Divide (XConst (VInt 1)) (XConst (VInt 0))))
+        (recreate powf0 20 [] []) = Err E_ZeroDivision.
+Proof. exact RecreateTotal.ex_fold_error. Qed.
+Theorem ex_narrow_hyps : wf_sx x_narrow = true /\ frag x_narrow = true.
+Proof. exact RecreateTotal.ex_narrow_hyps. Qed.
+Theorem frag_infix_needed :
+  obind (check_x red0 3 [] [] (XInfix At (XConst (VInt 1)) (XConst (VInt 1))))
+        (recreate powf0 3 [] []) = Panic.
+Proof. exact RecreateTotal.frag_infix_needed. Qed.
+(* the two functions that used to panic in Code::parse, and a function with a literal
+   closure, while, if, match with type and value arms, are in the fragment *)
+Theorem ex_lines_hyps :
+  forallb wf_sline p_narrow = true /\ forallb lfrag p_narrow = true /\
+  forallb wf_sline p_if = true /\ forallb lfrag p_if = true.
+Proof. exact RecreateTotal.ex_lines_hyps. Qed.
+Theorem ex_stm_hyps : forallb wf_sline p_stm = true /\ forallb lfrag p_stm = true.
+Proof. exact RecreateTotal.ex_stm_hyps. Qed.
+Theorem ex_stm_parses :
+  exists r, parse_top powf0 red0 60 [] [mkLayer [] None false] p_stm = Ok r.
+Proof. exact RecreateTotal.ex_stm_parses. Qed.
